@@ -39,7 +39,7 @@ type c11Script struct {
 
 type c11 struct{}
 
-func init() { core.Register(c11{}) }
+func init()            { core.Register(c11{}) }
 func (c11) ID() string { return "C11" }
 
 var c11Kernels = []string{"expandKey", "blockX1", "blockX2", "blockX4", "blockX8", "blockX16", "ghash1", "ghash9", "copy"}
@@ -51,7 +51,7 @@ const (
 	c11SysAad   = 301 * 2 * 2             // aad length x {Seal,Open} x side
 	c11SysNonce = 300 * 2 * 2             // nonce length 1..300
 	c11SysMis   = 16 * 4 * 3 * 2          // short len 0..15 x {Enc src, Enc dst, Dec src, Dec dst} x {tail, interior cap=len, interior cap>=16} x path
-	c11SysOpen  = 5 * 16 * 2              // tag sizes x ct len 0..15 x side
+	c11SysOpen  = 5 * 16 * 2 * 3          // tag sizes x ct len 0..15 x side x dst prefix {0, 8, 20}
 )
 
 func c11SysN() int {
@@ -129,6 +129,8 @@ func (c11) Generate(idx int, r *core.Rand, tier string) core.Script {
 	if i < c11SysOpen {
 		s := base("M:Open-short", sides[i%2])
 		i /= 2
+		s.DstLen = []int{0, 8, 20}[i%3]
+		i /= 3
 		s.ShortLen = i % 16
 		s.AEAD.TagSize = 12 + i/16
 		if s.ShortLen >= s.AEAD.TagSize {
@@ -282,7 +284,7 @@ func (c11) Execute(sc core.Script, keep bool) *core.Result {
 					n = spec.TagSize - 1
 				}
 				ct := alloc("src", n, n+s.SpareCap, 0)
-				dst := alloc("dst", 0, 64, 0)
+				dst := alloc("dst", s.DstLen, s.DstLen+64, 0)
 				_, opErr = a.Open(dst, nonce, ct, aad)
 				log.Add("Open of %d-byte ciphertext (tag %d) -> err=%v", n, spec.TagSize, opErr != nil)
 			}
